@@ -144,9 +144,9 @@ func chainStream(c *hc.Ctx, k, maxLen int, maxVisits int, emit bool, conservatio
 		if mv >= 2 {
 			c.Nontrivial("chain " + chainName(ch))
 		}
-		if pk != "" {
+		if pk != "" && c.ID != "C01" && c.ID != "C04" { // totality is C06's clause; elsewhere a panic shows as a model/code difference
 			c.Violate(hc.Violation{What: "kmpDeduplicate panicked on a chain of pixel centres: " + pk, Input: map[string]any{"chain": chainName(ch), "points": ring}, Observed: msg})
-		} else {
+		} else if pk == "" {
 			seen := map[Pt]bool{}
 			_ = seen
 			if conservation {
